@@ -72,6 +72,40 @@ def observe_init(ss, consistent=True):
                 shares_sum_one=bool(shares), maxfg=float(np.nanmax(np.abs(fg))) if len(fg) else 0.0, n_dyn_refs=len(refs))
 
 
+def verdict_probes(ss):
+    """After a successful initialisation: put one residual at a chosen value and ask the library's own test again.
+    The test reads dae.f / dae.g as they are (it does not recompute them), so this exercises exactly the verdict rule:
+    success iff every residual is a number below the tolerance."""
+    out = []
+    dae = ss.dae
+    tol = float(ss.TDS.config.tol)
+    if dae.m == 0:
+        return out
+    keep_g = np.array(dae.g)
+    keep_f = np.array(dae.f)
+    ec_keep = ss.exit_code
+    spots = [("g", dae.m - 1), ("g", 0)]
+    checked = [i for i in range(dae.n) if i not in set(int(k) for k in np.ravel(ss.no_check_init))] if dae.n else []
+    if checked:
+        spots.append(("f", checked[len(checked) // 2]))
+    for arr, k in spots:
+        for kind, val in (("nan", float("nan")), ("inf", float("inf")), ("above", 3.0 * tol), ("neg_above", -3.0 * tol), ("below", 0.3 * tol)):
+            dae.g[:] = keep_g
+            dae.f[:] = keep_f
+            (dae.g if arr == "g" else dae.f)[k] = val
+            ec0 = ss.exit_code
+            try:
+                ok = bool(ss.TDS.test_init())
+                raised = False
+            except Exception:
+                ok, raised = False, True
+            out.append(dict(e="probe", arr=arr, kind=kind, verdict=ok, raised=raised, should_pass=(kind == "below"), exit_bumped=bool(ss.exit_code > ec0)))
+    dae.g[:] = keep_g
+    dae.f[:] = keep_f
+    ss.exit_code = ec_keep
+    return out
+
+
 def flat_run(ss, tf=1.0):
     """undisturbed run: all timed events disabled"""
     for name in ("Toggle", "Fault", "Alter"):
@@ -113,6 +147,8 @@ def stock(sc):
         return dict(sid=sc["sid"], skipped="no dynamic model")
     # whether stock data are "consistent and inside all limiter ranges" is not known: the clause about them is vacuous here
     ev = [observe_init(ss, consistent=False)]
+    if not ev[0]["raised"] and ev[0]["test_ok"] and sc.get("probes", True):
+        ev.extend(verdict_probes(ss))
     if not ev[0]["raised"]:
         ev.append(flat_run(ss, sc.get("tf", 1.0)))
     return dict(sid=sc["sid"], ev=ev)
@@ -139,6 +175,8 @@ def handover(sc):
     tot = sum(g for g, u in on if u == 1)
     consistent = (tot == 10 or tot == 0)
     ev = [observe_init(ss, consistent=consistent)]
+    if not ev[0]["raised"] and ev[0]["test_ok"]:
+        ev.extend(verdict_probes(ss))
     if not ev[0]["raised"]:
         ev.append(flat_run(ss, 0.5))
     return dict(sid=sc["sid"], ev=ev)
